@@ -472,12 +472,13 @@ class SimulationAlgorithm(BaseSimulationAlgorithm):
         df_ind = df.copy()
 
         if self.visit_type == VisitType.DATAFRAME:
-            return (
-                self.param_study["df_visits"]
+            return {
+                str(id_): times
+                for id_, times in self.param_study["df_visits"]
                 .groupby("ID")["TIME"]
                 .apply(list)
-                .to_dict()
-            )
+                .items()
+            }
 
         df_ind["AGE_AT_BASELINE"] = (
             df_ind["tau"].apply(lambda x: x.numpy())
